@@ -115,6 +115,8 @@ Definition on_remove_worker (s : st) (w : wid) (reason : N) (a_order p_order t_o
                       | Retracting w1 =>
                           if N.eqb w w1 then
                             let c := core_of s in
+                            (* after the fix: a new instance id, the lost worker may have started it *)
+                            let t := with_inst t (t_inst t + 1) in
                             match find_redirect (c_redirects c) id with
                             | Some (target, rv) =>
                                 let t' := with_state t (Assigned target rv) in
